@@ -227,6 +227,43 @@ def myokit_to_gotran(model: myokit.Model, protocol=None) -> ODE:
     )
 
 
+class _ExpressionReader(myokit.formats.sympy.SymPyExpressionReader):
+    """Myokit's And and Or take two operands and its reader knows no if-then-else
+    between conditions (sympy's ITE, which a comparison of conditionals becomes),
+    while sympy flattens nested connectives into one with many operands"""
+
+    def _build_op_map(self):
+        from sympy.logic.boolalg import ITE
+
+        op_map = super()._build_op_map()
+        op_map[ITE] = self._ex_ite
+        return op_map
+
+    def _fold(self, op, e):
+        operands = [self.ex(x) for x in e.args]
+        result = operands[-1]
+        for operand in reversed(operands[:-1]):
+            result = op(operand, result)
+        return result
+
+    def _ex_and(self, e):
+        return self._fold(myokit.And, e)
+
+    def _ex_or(self, e):
+        return self._fold(myokit.Or, e)
+
+    def _ex_ite(self, e):
+        from sympy.logic.boolalg import simplify_logic
+
+        # The same rewriting into And, Or and Not that the code printers use
+        simplified = simplify_logic(e)
+        if simplified is sp.true:
+            return myokit.Equal(myokit.Number(0), myokit.Number(0))
+        if simplified is sp.false:
+            return myokit.NotEqual(myokit.Number(0), myokit.Number(0))
+        return self.ex(simplified)
+
+
 def gotran_to_myokit(ode: ODE, time_component="engine", time_unit="s") -> myokit.Model:
     """Convert a gotran ODE to myokit model
 
@@ -294,7 +331,7 @@ def gotran_to_myokit(ode: ODE, time_component="engine", time_unit="s") -> myokit
             # Models loaded from .ode text use the (real) symbol of the atom
             global_var_map[intermediate.symbol] = sp.Symbol(var.qname())
 
-    sympy_reader = myokit.formats.sympy.SymPyExpressionReader(model=model)
+    sympy_reader = _ExpressionReader(model=model)
     # Then we can add expressions
     for component in ode.components:
         comp = model[component.name]
